@@ -94,7 +94,9 @@ func strCapitalizeFunc(_ *ctx.EvalCtx, receiver object.Object, _ ...object.Objec
 		return &object.Str{Value: ""}, nil
 	}
 
-	newVal := strings.ToUpper(val[:1]) + val[1:]
+	// capitalize the first character, not the first byte
+	_, size := utf8.DecodeRuneInString(val)
+	newVal := strings.ToUpper(val[:size]) + val[size:]
 
 	return &object.Str{Value: newVal}, nil
 }
